@@ -66,10 +66,12 @@ static size_t numtoStr(intType num, CharT* output, size_t len, uintptr_t base)
         return 0;
     }
 
-    const bool isNeg = checkNeg(num);
+    // digits are taken from the unsigned magnitude: negating the most negative value overflows
+    using uintType = typename std::make_unsigned<intType>::type;
+    const bool isNeg = num < 0;
     uintptr_t i = 0;
 
-    intType sum = num;
+    uintType sum = isNeg ? uintType(0) - uintType(num) : uintType(num);
     do
     {
         uint32_t digit = sum % base;
